@@ -19,20 +19,20 @@ CLAIMED = {
         note="the theorem is stated over the loaded map's graph (m.allDownOf: down revisions + dependencies as the code resolves them); target resolution is C16's; Python set iteration order of normalized dependencies is read from the implementation and checked to be a permutation.",
         technique=T_GENERIC),
     "C02": dict(engine="rev", ref="6/C02",
-        text="C02.plan: whenever downgrade produces a plan it is exactly the applied revisions that build on the roots (the target's down-revision children / all revisions without down-revision for base, narrowed to the named branch), each once, no revision before an applied revision that needs it; an empty plan is only returned when the target is a current row (otherwise RangeNotAncestorError); C02.target_safe: the target and its prerequisites are never in the plan. Same _topological_sort proof as C01 (convexity and coverage of desc*(roots) ∩ applied proved). Model compared plan-for-plan with the real _downgrade_revs; Lean checkers downgradeOk/mustRefuse judge the implementation's plans.",
+        text="C02.plan: whenever downgrade produces a plan it is exactly the applied revisions that build on the roots (the target's down-revision children / all revisions without down-revision for base, narrowed to the named branch), each once, no revision before an applied revision that needs it; an empty plan is only returned when the target is a current row (otherwise RangeNotAncestorError); C02.target_safe: the target and its prerequisites are never in the plan. Same _topological_sort proof as C01 (convexity and coverage of desc*(roots) ∩ applied proved). Model compared plan-for-plan with the real _downgrade_revs; Lean checkers downgradeOk/mustRefuse judge the implementation's plans. Also plan_history (the same in terms of the links written in the files) and downgradeOk_sound.",
         note="as C01; the deprecated '-N from several heads' form depends on the row order of the SELECT, which is an explicit input.",
         technique=T_GENERIC),
     "C03": dict(engine="rev", ref="6/C03",
-        text="C03.step / upgrade_run / downgrade_run: from a table consistent with the applied set (rows = the applied revisions no applied revision needs, no duplicates), recording any step of a plan Alembic produced (C01.UpgradePlan / C02.DowngradePlan) succeeds - every INSERT/UPDATE/DELETE hits exactly one row - and the table is consistent again after EVERY step, for every loaded history incl. merge points with redundant parents (the class of the repaired defects F2/F3); C03.init + induction over command sequences covers every state reachable from the empty table; all_applied_rows / none_applied_rows give the heads / empty-table corollaries. Compared step by step with the real HeadMaintainer on a live SQLite alembic_version table.",
-        note="as C01; version_table name/schema/pk settings do not enter the bookkeeping logic (correspondence only); rows are assumed to resolve to themselves (full ids).",
+        text="C03.step / upgrade_run / downgrade_run: from a table consistent with the applied set (rows = the applied revisions no applied revision needs, no duplicates), recording any step of a plan Alembic produced (C01.UpgradePlan / C02.DowngradePlan) succeeds - every INSERT/UPDATE/DELETE hits exactly one row - and the table is consistent again after EVERY step, for every loaded history incl. merge points with redundant parents (the class of the repaired defects F2/F3); C03.init + induction over command sequences covers every state reachable from the empty table; all_applied_rows / none_applied_rows give the heads / empty-table corollaries. Compared step by step with the real HeadMaintainer on a live SQLite alembic_version table. Also rows_history, rowsOk_sound, traceOk_sound.",
+        note="as C01; version_table name/schema/pk settings do not enter the bookkeeping logic: they are exercised by running every command on a fresh MigrationContext that reads the heads back from the table (harness/rev_ctx.py); rows are assumed to resolve to themselves (full ids).",
         technique=T_GENERIC),
     "C04": dict(engine="online", ref="6/C04",
         text="Lean theorems over Model.Online.runFinal (begin_transaction decision tree, _ProxyTransaction.__exit__, per-step block of run_migrations, autocommit_block) for every plan length, every failing migration and every failure position, all (transactional_ddl, transaction_per_migration, external) settings: single_txn, per_migration, recorded_exactly_completed, nontransactional, rows_at_boundary, never_names_failed. Compared with the real MigrationContext on SQLite file databases (pysqlite default and the BEGIN recipe) with exhaustive failure positions; the Lean checker judges the post-failure observation of the real code.",
         note="backend DDL modes are a model (pysqlite legacy and SQLite BEGIN recipe validated live; PostgreSQL/MSSQL/MySQL servers not); single_txn/per_migration carry the hypothesis 'no autocommit_block before the failure'; version statements are parameters read from the real HeadMaintainer (row algebra is C03).",
         technique=T_GENERIC),
     "C05": dict(engine="rev", ref="6/C05",
-        text="C05.single: from rows that form an antichain, stamping a revision d replaces exactly the rows in d's lineage (ancestors or descendants through down-revisions and dependencies, selected as filter_for_lineage(include_dependencies=True) does) by d, leaves every other row untouched, every statement hits exactly one row, and the result is again an antichain - for every loaded history and all four classifications (no-op / downgrade / upgrade / new branch) of _stamp_revs with the StampStep decision logic; C05.base: stamping base deletes the selected rows one by one and ends empty. Several destinations ('heads', several ids; repaired in /repo by the F4 fix) are covered by correspondence with the real _stamp_revs + HeadMaintainer on SQLite and the Lean oracle stampOk.",
-        note="per-destination theorems; the multi-destination loop and target-string resolution are correspondence + oracle; --purge only empties the table first (run_migrations), exercised by correspondence.",
+        text="C05.single: from rows that form an antichain, stamping a revision d replaces exactly the rows in d's lineage (ancestors or descendants through down-revisions and dependencies, selected as filter_for_lineage(include_dependencies=True) does) by d, leaves every other row untouched, every statement hits exactly one row, and the result is again an antichain - for every loaded history and all four classifications (no-op / downgrade / upgrade / new branch) of _stamp_revs with the StampStep decision logic; C05.base: stamping base deletes the selected rows one by one and ends empty. Several destinations ('heads', several ids; repaired in /repo by the F4 fix) are covered by correspondence with the real _stamp_revs + HeadMaintainer on SQLite and the Lean oracle stampOk. Also C05.several (the loop of _stamp_revs over pairwise unrelated destinations, the repaired F4/F15), stamp_one, stamp_several, stamp_heads (+ stamp_heads_history: exactly the revisions no file names as a prerequisite), stamp_base, lineage_history, stampOk_sound.",
+        note="stamp_one / stamp_several / stamp_heads / stamp_base are end-to-end about command.stamp for destinations written as full ids, 'heads', 'base'; label / partial-id destinations and --purge are compared (in-process and through the shipped env.py on a SQLite file) and judged by the oracle stampOk, whose verdict is given its meaning by stampOk_sound; destinations that share a lineage or name one revision twice are outside the formula.",
         technique=T_GENERIC),
     "C06": dict(engine="diff", ref="6/C06",
         text="quiet_partial and converge_partial kernel-checked for all well-formed schemas of the property's class (any size, arbitrary type arguments and default texts) under every compare_type/compare_server_default setting, with the SchemaOk hypothesis (plain defaults, types that reflect by name); the F9 family, affinity-reflected types and two batch defects are Lean counterexamples + known findings replayed on the real code. The property itself (quiet, converge through rendered code executed on SQLite) is observed on the real code on every run.",
@@ -71,12 +71,12 @@ CLAIMED = {
         note="the lexer/shapes describe the databases' grammars; SQLAlchemy-rendered type/default texts opaque; reserved words read from the live dialect; MSSQL sp_rename(table)/_ExecDrop* and MySQL DROP CONSTRAINT are modelled and compared but have no positive theorem; the _exec strip/TAB step is covered by correspondence only.",
         technique=T_GENERIC),
     "C15": dict(engine="rev", ref="6/C15",
-        text="cyclic_rejected: whatever loads has no directed cycle among its down-revision and dependency links (any set of revisions each linking into the set survives every pass of _revisions_in_cycles, so _detect_cycles raises); acyclic_accepted / acyclic_loads: a well-formed history whose links admit a rank function passes all six checks of _detect_cycles (every revision lies between a head and a base; the peeling ends empty within n passes); heads_bases: reported heads/real heads/bases/real bases are exactly the revisions nobody's down-revision / nobody links to / without down-revision / without links; traversals return the full reachable set within their fuel (closure_total; the sort: C01/C02). The defect F1 (reachability-only check) is repaired in /repo and the model mirrors the repaired code. Every digraph on <=3 revisions (thorough 4) is loaded through the real RevisionMap and compared.",
-        note="acyclicity is stated as existence of a rank function in acyclic_accepted and as absence of a self-sustaining set in cyclic_rejected; their equivalence for finite graphs is classical and not formalised here (acyclic_no_cycle gives one direction); links are down-revisions plus dependencies as the code resolves them (ids first, then branch labels).",
+        text="cyclic_rejected: whatever loads has no directed cycle among its down-revision and dependency links (any set of revisions each linking into the set survives every pass of _revisions_in_cycles, so _detect_cycles raises); acyclic_accepted / acyclic_loads: a well-formed history whose links admit a rank function passes all six checks of _detect_cycles (every revision lies between a head and a base; the peeling ends empty within n passes); heads_bases: reported heads/real heads/bases/real bases are exactly the revisions nobody's down-revision / nobody links to / without down-revision / without links; traversals return the full reachable set within their fuel (closure_total; the sort: C01/C02). The defect F1 (reachability-only check) is repaired in /repo and the model mirrors the repaired code. Every digraph on <=3 revisions (thorough 4) is loaded through the real RevisionMap and compared. Also no_cycle_acyclic (on a finite graph 'no directed cycle' = 'admits a rank function'), no_cycle_accepted, heads_bases_history, and hasCycle_iff: the oracle decides 'directed cycle' on the history as written.",
+        note="links are down-revisions plus dependencies as the code resolves them (ids first, then branch labels); duplicate revision ids are C19's business.",
         technique=T_GENERIC),
     "C16": dict(engine="rev", ref="6/C16",
-        text="full_id (a full revision id resolves to that revision), plain_sound (a plain identifier resolves to a revision only if it is a key of the map for it - its id or a label it carries - or a prefix of its id and of no other id of >=4 characters), prefix_unique_partial (the documented unique-prefix rule when all ids have >=4 characters) next to the kernel-checked counterexample for shorter ids (known finding F13), symbolic_heads/base; the label-prefix defect F10 is repaired in /repo. Every prefix of every id and label, every label@x combination and offsets up to 3 are resolved through the real RevisionMap and compared with the model; relative and branch-qualified results are judged by Lean oracles (exact distance, branch membership, documented meaning of head/heads/base).",
-        note="no unbounded theorem about _walk / relative forms yet (correspondence + Lean oracles on implementation output).",
+        text="full_id (a full revision id resolves to that revision), plain_sound (a plain identifier resolves to a revision only if it is a key of the map for it - its id or a label it carries - or a prefix of its id and of no other id of >=4 characters), prefix_unique_partial (the documented unique-prefix rule when all ids have >=4 characters) next to the kernel-checked counterexample for shorter ids (known finding F13), symbolic_heads/base; the label-prefix defect F10 is repaired in /repo. Every prefix of every id and label, every label@x combination and offsets up to 3 are resolved through the real RevisionMap and compared with the model; relative and branch-qualified results are judged by Lean oracles (exact distance, branch membership, documented meaning of head/heads/base). Also walk_up_exact / walk_down_exact and walk_up_history / walk_down_history (a relative walk that returns a revision returns one exactly N down_revision links, as written in the files, away), stepsDown_iff, load_ids_legal.",
+        note="where +N / label@+N starts counting (Spec.Rev.relUpStarts) and the regex that splits label@sym+-N are compared and judged by oracles only; get_revisions('-N') is modelled for the plain ASCII spelling of the number.",
         technique=T_GENERIC),
     "C17": dict(engine="gen", ref="6/C17",
         text="repr_roundtrip / repr_file (the four identifier assignments of script.py.mako decode to the requested values for ALL strings and tuples), incremental (for every well-formed history that loads and every accepted new revision, add_revision succeeds, the extended history loads, and the incrementally updated map equals the reloaded map in the FULL view incl. branch labels - the label defect F5 is repaired in /repo), filename_suffix/accepted; counterexamples for the unescaped docstring (F12) and a '.#' id are kernel-checked and recorded. After every real generate_revision/command.revision/command.merge call the incremental ScriptDirectory is compared with a fresh one and with the model.",
